@@ -122,6 +122,31 @@ func checkC16(p *Program, r *Report) {
 				}
 			}
 		}
+		// a slice memo that a constructor may fill with whatever its caller supplied (an empty, non-nil slice included)
+		// is "cached" only when it has content: the accessor must test its length, not its nil-ness
+		for f, accs := range memo {
+			if _, isSl := f.Type().Underlying().(*types.Slice); !isSl {
+				continue
+			}
+			for _, a := range accs {
+				iff, ok := lastInstr(a.test).(*ssa.If)
+				if !ok {
+					continue
+				}
+				bo, ok := iff.Cond.(*ssa.BinOp)
+				if !ok {
+					continue
+				}
+				isNilTest := false
+				for _, side := range []ssa.Value{bo.X, bo.Y} {
+					if k, ok := side.(*ssa.Const); ok && k.IsNil() {
+						isNilTest = true
+					}
+				}
+				r.Add("C16.writers", FnName(a.fn), "the cached-bytes test of "+tn+"."+f.Name()+" asks whether there are bytes, not whether the slice is nil", bo.Pos(), !isNilTest,
+					map[bool]string{false: "length test", true: "nil test: an empty non-nil slice stored by a constructor would be served as the serialisation for ever"}[isNilTest])
+			}
+		}
 		var mfs []*types.Var
 		for f := range memo {
 			mfs = append(mfs, f)
